@@ -3,7 +3,7 @@ import enums
 from common import Result
 from e3 import Config, Subj
 from e3check import compare_transcripts, explore
-from enums import ALL_REPRS, REPRS, family_A, family_F, family_H, family_L, family_M
+from enums import ALL_REPRS, REPRS, family_A, family_F, family_H, family_L, family_M, family_R
 
 QUICK_L_REPRS = ["i8", "u8", "i16", "u64"]
 THOROUGH_F3_REPRS = ["i8", "u8", "i16", "u16", "i64", "u64", "i128", "usize"]
@@ -20,9 +20,12 @@ def base_decls(tier, with_H=True, quick_reprs=None, renames=True, f3_reprs=None)
             out += family_M(r, 3)
         for r in ("i16", "u32", "i64", "u64", "i128", "usize"):
             out += family_A(r)
+        for r in ("i8", "u16", "i32", "u64"):
+            out += family_R(r)
     else:
         for r in ALL_REPRS:
             out += family_A(r)
+            out += family_R(r)
         for r in ALL_REPRS:
             out += family_M(r, 3, full=r in ("i8", "i64", "u8"))
         for r in ALL_REPRS:
@@ -192,6 +195,8 @@ def c06(tier):
         ldecls = []
         for r in QUICK_L_REPRS:
             ldecls += family_L(r, renames=False)
+        for r in ("i8", "u32"):
+            ldecls += family_R(r)
         lbounds = dict(x1_depth=2, x2_extra=0, x2_cap=3)
     else:
         decls = []
@@ -218,7 +223,7 @@ def c06(tier):
             f3 += family_F(r, 3, 3, 3, renames=False)
         for i, d in enumerate(f3):
             for j, (nm, c) in enumerate(iter_cfgs(d)):
-                subs.append(Subj("t%05d_%d" % (i, j), d, c, bounds=dict(x1_depth=3, x2_extra=3, x2_cap=9)))
+                subs.append(Subj("t%05d_%d" % (i, j), d, c, bounds=dict(x1_depth=3, x2_extra=2, x2_cap=8)))
         extra = f3
         for r in ("i16", "u16"):
             for i, d in enumerate(family_H(r)):
@@ -292,6 +297,8 @@ def c07(tier):
     ldecls = []
     for r in lreprs:
         ldecls += family_L(r, renames=False)
+    for r in (("i8", "u32") if tier == "quick" else ALL_REPRS):
+        ldecls += family_R(r)
     for i, d in enumerate(ldecls):
         for j, (nm, c) in enumerate(range_cfgs(d)):
             subs.append(Subj("l%05d_%d" % (i, j), d, c, weight=80,
